@@ -3,10 +3,10 @@ import numpy as np
 from typing import Dict, Union, List
 import warnings
 
-from sympy import Expr, Function, Integer
+from sympy import Expr, Function, Integer, Add
 from Solverz.sym_algebra.symbols import iVar, IdxVar
 from Solverz.utilities.type_checker import is_vector, is_scalar, is_integer, is_number, PyNumber, is_zero
-from Solverz.sym_algebra.functions import Diag, Ones
+from Solverz.sym_algebra.functions import Diag, Ones, Mat_Mul
 
 
 SolVar = Union[iVar, IdxVar]
@@ -181,7 +181,7 @@ class JacBlock:
                     if self.Value0.shape[1] != DiffVarValue.size:
                         raise ValueError(f"Incompatible matrix derivative size {self.Value0.shape} " +
                                          f"and vector variable size {DiffVarValue.shape}.")
-                    self.DeriExprBc = self.DeriExpr
+                    self.DeriExprBc = broadcast_diag_terms(self.DeriExpr, EqnSize)
                 case _:
                     raise TypeError(f"Derivative with value {self.Value0} of vector variables not supported!")
 
@@ -292,6 +292,22 @@ class JacBlock:
 
     def __repr__(self):
         return f"Jacblock with DeriExpr {self.DeriExpr.__repr__()}"
+
+
+def broadcast_diag_terms(expr: Expr, n: int) -> Expr:
+    """
+    c*x + A@x differentiates to Diag(c) + A. With a scalar parameter (or a size-one variable) c, np.diagflat(c) is 1 x 1
+    and numpy adds c to every entry of A. A Diag(.) summand of a matrix block is the n x n block itself: print it so.
+    """
+    terms = Add.make_args(expr)
+    if len(terms) < 2:
+        return expr
+    new_terms = []
+    for term in terms:
+        if term.has(Diag) and not term.has(Mat_Mul):
+            term = term.replace(lambda e: isinstance(e, Diag), lambda e: Diag(e.args[0] * Ones(n)))
+        new_terms.append(term)
+    return Add(*new_terms)
 
 
 def slice2array(s: slice) -> np.ndarray:
